@@ -8,7 +8,7 @@ from props.framing import block_ref
 ID = 'C10'
 RULE = ('files of n = 1..8 records x every position k of the bad record x fault kind {truncated record, length above the maximum, '
         'undecodable MTI, unconfigured bitmap bit, bad field length, bad typed value, bad PDS sub-length, TLV tag at end of field} '
-        'x {VBS, 1014} x {latin_1, cp500}; observed: records before the error, record_number, binary_context_data and the '
+        'x {VBS, 1014} x {latin_1, cp500} x consumption style {one for-loop, next() then a loop, islice batches}; observed: records before the error, record_number, binary_context_data and the '
         'operator message printed by print_exception_details; non-trivial = distinct case with k >= 2')
 EXHAUSTIVE = {'quick': False, 'thorough': False}
 ASSUMPTIONS = []
@@ -50,6 +50,7 @@ def gen(rng, tier):
                     for codec in (('latin_1', 'cp500') if tier != 'quick' or (n + k) % 2 else ('latin_1',) if k % 2 else ('cp500',)):
                         good = [iu.ref_wire(iu.rand_message(rng, pk, codec, nbits=rng.choice([1, 3, 7])), pk, codec, False) for _ in range(n)]
                         cases.append({'codec': codec, 'blocked': blocked, 'kind': kind, 'k': k, 'good': [g.hex() for g in good],
+                                      'style': ['loop', 'next-then-loop', 'batches'][(n + k + len(cases)) % 3],
                                       'cut': rng.randrange(1, 20), 'big': rng.choice([6001, 6002, 70000, 0x40404040, 0xffffffff])})
     return cases
 
@@ -95,8 +96,27 @@ def impl(case):
     recs = []
     res = {}
     try:
-        for d in mciipm.IpmReader(io.BytesIO(f), encoding=case['codec'], blocked=case['blocked']):
-            recs.append(iu.dict_text(d))
+        reader = mciipm.IpmReader(io.BytesIO(f), encoding=case['codec'], blocked=case['blocked'])
+        style = case.get('style', 'loop')
+        if style == 'next-then-loop':          # read a header record with next(), then loop over the rest
+            try:
+                recs.append(iu.dict_text(next(reader)))
+            except StopIteration:
+                pass
+            for d in reader:
+                recs.append(iu.dict_text(d))
+        elif style == 'batches':               # pull the records in batches of two
+            import itertools
+            while True:
+                got = 0
+                for d in itertools.islice(reader, 2):
+                    recs.append(iu.dict_text(d))
+                    got += 1
+                if got < 2:
+                    break
+        else:
+            for d in reader:
+                recs.append(iu.dict_text(d))
         res['end'] = 'END'
     except Exception as ex:
         res['end'] = exc_class(ex)
@@ -144,4 +164,4 @@ def nontrivial(case, io_):
 
 
 def label(case):
-    return '%s/%s/%s/n=%d' % (case['kind'], '1014' if case['blocked'] else 'vbs', case['codec'], len(case['good']))
+    return '%s/%s/%s/%s/n=%d' % (case['kind'], '1014' if case['blocked'] else 'vbs', case['codec'], case.get('style', 'loop'), len(case['good']))
